@@ -313,6 +313,10 @@ func (m Manager) Commit(ctx context.Context, change orm.DIDChangeLog) error {
 func (m Manager) IsCommitted(_ context.Context, change orm.DIDChangeLog) (bool, error) {
 	// get the latest from the didStore
 	_, meta, err := m.store.Resolve(change.DID(), &resolver.ResolveMetadata{AllowDeactivated: true})
+	if errors.Is(err, resolver.ErrNotFound) {
+		// the DID is unknown on the network: it's a creation that was never published, so it's not committed.
+		return false, nil
+	}
 	if err != nil {
 		return false, err
 	}
